@@ -255,6 +255,20 @@ def p_argument_mismatch(r, ctx, names):
     return dict(insert=["    " + r.choice(["%s(\"s\")", "%s(1.5)", "%s(true)", "%s(1, 2)", "%s()"]) % names["takes_int"]])
 
 
+def p_argument_mismatch_multiline(r, ctx, names):
+    """the offending argument stands on a later line than the call's opening parenthesis: the error names the
+    line of the argument"""
+    if not ctx.startswith("inner"):
+        return None
+    bad = r.choice(['"s"', "1.5", "true"])
+    form = r.randrange(3)
+    if form == 0:
+        return dict(insert=["    %s(" % names["takes_int"], "        // the argument follows", "        " + bad + ",", "    )"], planted_offset=2)
+    if form == 1:
+        return dict(insert=["    %s(" % names["takes_int"], "        " + bad + ")"], planted_offset=1)
+    return dict(insert=["    am_ := (%s(" % names["takes_int"], "", "        " + bad, "    ), 1)"], planted_offset=2)
+
+
 def p_annotation_mismatch(r, ctx, names):
     if ctx.startswith("inner"):
         return dict(insert=["    " + r.choice(["am_: int = \"s\"", "am_: str = 1", "am_: bool = 1.0", "am_: int : \"s\""])])
@@ -301,6 +315,7 @@ PLANTERS = {
     "assign-to-local-constant": p_assign_local_constant,
     "operator-mismatch": p_operator_mismatch,
     "argument-mismatch": p_argument_mismatch,
+    "argument-mismatch-multiline": p_argument_mismatch_multiline,
     "annotation-mismatch": p_annotation_mismatch,
     "break-outside-loop": p_break_outside,
     "conflict-marker": p_conflict_marker,
